@@ -35,7 +35,9 @@ CONSTANTS MaxRoots,  \* external spawns allowed
           Hist,      \* BOOLEAN: record the history
           Pinned     \* BOOLEAN: also spawn tasks without a receiver (spawn_pinned)
 
-VARIABLES queue, wq, stl, xo, h
+VARIABLES queue, wq,
+          stl,   \* 0 = not stalled, 1 = step() returned None, 2 = run_until_stalled returned
+          xo, h
 
 dvars == <<st, woken, cur, ph, blk, left, sig, wt, relay, rw, par, seen, ov, run, rc, queue, wq, stl, xo, h>>
 \* rc (like h) is a function of the path, not of the state: hidden
@@ -59,7 +61,7 @@ Init ==
   /\ AInit
   /\ queue = <<>>
   /\ wq = [k \in Chans |-> <<>>]
-  /\ stl = FALSE
+  /\ stl = 0
   /\ xo = 0
   /\ h = <<>>
 
@@ -73,14 +75,14 @@ DStep ==
           THEN Noop(t) /\ (IF run THEN h' = h      \* not observable inside run_until_stalled
                                   ELSE Log(Ev("noop", 0, 0, "", TRUE, 0)))
           ELSE PollBegin(t) /\ Log(Ev("pb", t, 0, "", FALSE, 0))
-  /\ stl' = FALSE
+  /\ stl' = 0
   /\ UNCHANGED <<wq, xo>>
 
 DStall ==
-  /\ cur = 0 /\ queue = <<>> /\ ~stl
+  /\ cur = 0 /\ queue = <<>> /\ stl = 0
   /\ Stall
   /\ queue' = queue
-  /\ stl' = TRUE
+  /\ stl' = 1
   /\ Log(Ev("stall", 0, 0, "", FALSE, 0))
   /\ UNCHANGED <<wq, xo>>
 
@@ -96,7 +98,7 @@ DPollEnd ==
 
 \* Executor::run_until_stalled = step() until the queue is empty
 DRunBegin ==
-  /\ cur = 0 /\ ~stl
+  /\ cur = 0 /\ stl = 0
   /\ RunBegin
   /\ queue' = queue
   /\ Log(Ev("rb", 0, 0, "", FALSE, 0))
@@ -107,7 +109,7 @@ DRunEnd ==
   /\ RunEnd(rc)
   /\ queue' = queue
   /\ Log(Ev("re", 0, 0, "", FALSE, rc))
-  /\ stl' = TRUE
+  /\ stl' = 2
   /\ UNCHANGED <<wq, xo>>
 
 \* external operations (what the environment does between steps)
@@ -119,7 +121,7 @@ DExtSpawn ==
        /\ Spawn(0, NextId, rl)
        /\ queue' = Append(queue, NextId)
        /\ Log(Ev("spawn", 0, NextId, "", rl, 0))
-  /\ stl' = FALSE
+  /\ stl' = 0
   /\ UNCHANGED <<wq, xo>>
 
 DExtKick ==
@@ -128,7 +130,7 @@ DExtKick ==
        /\ Kick(0, u)
        /\ queue' = Push(queue, u)
        /\ Log(Ev("kick", 0, u, "", FALSE, 0))
-  /\ stl' = FALSE /\ xo' = xo + 1
+  /\ stl' = 0 /\ xo' = xo + 1
   /\ UNCHANGED wq
 
 \* try_receive from outside, only on receivers nobody will await any more
@@ -140,7 +142,7 @@ DExtTry ==
        /\ IF par[c] = 0 THEN TRUE ELSE st[par[c]] = "D"
        /\ Try(c, r, Val(c))
        /\ Log(Ev("try", 0, c, r, FALSE, IF r = "ok" THEN Val(c) ELSE 0))
-  /\ stl' = FALSE /\ xo' = xo + 1
+  /\ stl' = 0 /\ xo' = xo + 1
   /\ UNCHANGED wq
 
 \* actions of the polled task
@@ -240,5 +242,5 @@ EmitState == IF cur = 0 /\ ~run /\ h # <<>> THEN PrintT(ToJson(h)) ELSE TRUE
 \* as an ACTION_CONSTRAINT: one line per TRANSITION of the graph (also those
 \* into states already seen), i.e. every (state, action) pair is replayed
 EmitTrans == IF Hist /\ ~run' THEN PrintT(ToJson(h')) ELSE TRUE
-EmitStalled == IF stl /\ h # <<>> THEN PrintT(ToJson(h)) ELSE TRUE
+EmitStalled == IF stl # 0 /\ h # <<>> THEN PrintT(ToJson(h)) ELSE TRUE
 =============================================================================
